@@ -1185,9 +1185,14 @@ func EvalProgram(progSrc string, files []InputFile, rootSelectors []string, stdo
 	for _, file := range files {
 		// for each json value
 		d := json.NewDecoder(file.Reader)
-		for d.More() {
+		for {
 			var rootValue any
 			err := d.Decode(&rootValue)
+			if err == io.EOF {
+				// a clean end of input. anything else that stops the decoder (a stray
+				// closing bracket, a read error) is reported
+				break
+			}
 			if err != nil {
 				return &ev, JsonError{err.Error(), file.Name}
 			}
